@@ -104,18 +104,27 @@ def check_C14(run):
     with open(deepcorpus, "w") as f:
         for q in deep:
             f.write(json.dumps(q) + "\n")
+    # a third corpus for an "option storm": all goroutines parse the same few queries with bare terms under four different
+    # default fields, nothing else, in a tight loop
+    storm = ["status:open AND (error OR \"timed out\") AND NOT retry* AND lvl:[1 TO 5]", "a b c", "x AND NOT y OR z~2", "\"p q\" r* /s/ 4"]
+    stormcorpus = os.path.join(run.work, "corpus_storm.ndjson")
+    with open(stormcorpus, "w") as f:
+        for q in storm:
+            f.write(json.dumps(q) + "\n")
     racebin = build_race_harness()
     configs = [(4, 300), (16, 150), (16, 150)] if run.tier == "quick" else [(4, 800), (16, 400), (64, 150)] + [(8 + 8 * i, 200) for i in range(12)]
-    configs = [(g, per, corpus) for g, per in configs] + ([(16, 40, deepcorpus)] if run.tier == "quick" else [(16, 100, deepcorpus), (64, 40, deepcorpus)])
+    configs = [(g, per, corpus, "") for g, per in configs] + ([(16, 40, deepcorpus, "")] if run.tier == "quick" else [(16, 100, deepcorpus, ""), (64, 40, deepcorpus, "")])
+    configs += [(16, 300, stormcorpus, "parsedf,parsedf2,sqldf,sqlpdf")] if run.tier == "quick" else [(16, 1500, stormcorpus, "parsedf,parsedf2,sqldf,sqlpdf"), (64, 300, stormcorpus, "parsedf,parsedf2,sqldf,sqlpdf")]
     total_events, accepted = 0, 0
-    for i, (g, per, corpus) in enumerate(configs):
+    for i, (g, per, corpus, kinds) in enumerate(configs):
+        kargs = ["-kinds", kinds] if kinds else []
         td = run.sub("conc_%d" % i)
         trace = os.path.join(td, "trace.ndjson")
         env = dict(os.environ, GORACE="log_path=%s halt_on_error=0 exitcode=0" % os.path.join(td, "race"))
         # the sequential baseline and the concurrent phase run in two fresh processes
         seqf, concf = os.path.join(td, "seq.ndjson"), os.path.join(td, "conc.ndjson")
-        p0 = subprocess.run([racebin, "conc", "-phase", "seq", "-corpus", corpus, "-out", seqf], env=env, stdout=subprocess.PIPE, stderr=subprocess.PIPE, text=True, timeout=1800)
-        p = subprocess.run([racebin, "conc", "-phase", "conc", "-corpus", corpus, "-g", str(g), "-per", str(per), "-seed", str(run.seed * 100 + i), "-out", concf],
+        p0 = subprocess.run([racebin, "conc", "-phase", "seq", "-corpus", corpus, "-out", seqf] + kargs, env=env, stdout=subprocess.PIPE, stderr=subprocess.PIPE, text=True, timeout=1800)
+        p = subprocess.run([racebin, "conc", "-phase", "conc", "-corpus", corpus, "-g", str(g), "-per", str(per), "-seed", str(run.seed * 100 + i), "-out", concf] + kargs,
                            env=env, stdout=subprocess.PIPE, stderr=subprocess.PIPE, text=True, timeout=1800)
         if p.returncode != 0 or p0.returncode != 0:
             raise Broken("conc run failed: " + (p.stderr + p0.stderr)[-800:])
@@ -152,7 +161,7 @@ def check_C14(run):
                 clause = "a concurrent call is not a step of the specification (result differs from the sequential run, or the shared state changed)"
                 report = json.dumps(e)
             run.failures.append({"prop": "C14", "clause": clause, "q": "%s by %s" % (e.get("call"), e.get("g")), "detail": report,
-                                 "_replay": {"pipeline": "conc", "g": g, "per": per, "seed": run.seed * 100 + i, "corpus": corpus, "race": bool(races)}})
+                                 "_replay": {"pipeline": "conc", "g": g, "per": per, "seed": run.seed * 100 + i, "corpus": corpus, "race": bool(races), "kinds": kinds}})
         if i == 0:
             run.add_sample({"kind": "events of real goroutines validated against Concurrent.tla", "first_events": [json.loads(l) for l in first_lines(trace, 400)[-4:]]})
     run.notes.append("corpus of %d queries (repository tests + generated, every operator and leaf kind) -> %d distinct calls; %d runs with up to %d goroutines, "
@@ -163,13 +172,21 @@ def replay_conc(run, rp):
     # a race needs the same interleaving to show again, which cannot be forced: the detector's report is the evidence
     if rp.get("race"):
         return True
+    # a third corpus for an "option storm": all goroutines parse the same few queries with bare terms under four different
+    # default fields, nothing else, in a tight loop
+    storm = ["status:open AND (error OR \"timed out\") AND NOT retry* AND lvl:[1 TO 5]", "a b c", "x AND NOT y OR z~2", "\"p q\" r* /s/ 4"]
+    stormcorpus = os.path.join(run.work, "corpus_storm.ndjson")
+    with open(stormcorpus, "w") as f:
+        for q in storm:
+            f.write(json.dumps(q) + "\n")
     racebin = build_race_harness()
     td = run.sub("replay_conc")
     trace = os.path.join(td, "trace.ndjson")
     seqf, concf = os.path.join(td, "seq.ndjson"), os.path.join(td, "conc.ndjson")
     e2 = dict(os.environ, GORACE="halt_on_error=0 exitcode=0")
-    subprocess.run([racebin, "conc", "-phase", "seq", "-corpus", rp["corpus"], "-out", seqf], env=e2, stdout=subprocess.PIPE, stderr=subprocess.PIPE, text=True, timeout=1800)
-    p = subprocess.run([racebin, "conc", "-phase", "conc", "-corpus", rp["corpus"], "-g", str(rp["g"]), "-per", str(rp["per"]), "-seed", str(rp["seed"]), "-out", concf],
+    kargs = ["-kinds", rp["kinds"]] if rp.get("kinds") else []
+    subprocess.run([racebin, "conc", "-phase", "seq", "-corpus", rp["corpus"], "-out", seqf] + kargs, env=e2, stdout=subprocess.PIPE, stderr=subprocess.PIPE, text=True, timeout=1800)
+    p = subprocess.run([racebin, "conc", "-phase", "conc", "-corpus", rp["corpus"], "-g", str(rp["g"]), "-per", str(rp["per"]), "-seed", str(rp["seed"]), "-out", concf] + kargs,
                        env=e2, stdout=subprocess.PIPE, stderr=subprocess.PIPE, text=True, timeout=1800)
     cat_files([seqf, concf], trace)
     out, rc, secs = run.tlc(td, "TraceConc", TRACE_CFG, workers=1, timeout=1800)
